@@ -7,9 +7,11 @@
 #include "common.hpp"
 #include <boost/msm/front/row2.hpp>
 #include <boost/msm/front/internal_row.hpp>
-struct ea {}; struct eb {}; struct ec {}; struct ed {}; struct ei {}; struct ef {};
+struct ea {}; struct eb {}; struct ec {}; struct ed {}; struct ei {}; struct ef {}; struct ej {}; struct ek {};
 static std::string g_log; static unsigned g_bits = 0;
-enum { GA = 0, GC = 1, GI = 2, GF = 3 };
+enum { GA = 0, GC = 1, GI = 2, GF = 3 };   /* the guard-only internal row on ek shares bit GI */
+// states log their entry / exit: an internal transition must show neither (C02), whichever front-end spells it
+template<int N> struct LS : state<> { template<class E,class F> void on_entry(E const&,F&){ g_log += "+" + std::to_string(N) + " "; } template<class E,class F> void on_exit(E const&,F&){ g_log += "-" + std::to_string(N) + " "; } };
 static bool gd(int k, const char* n) { g_log += n; g_log += ' '; return (g_bits >> k) & 1; }
 static void ac(const char* n) { g_log += n; g_log += ' '; }
 #if defined(CFG_back11)
@@ -21,16 +23,19 @@ static void ac(const char* n) { g_log += n; g_log += ' '; }
 struct ActA { template<class E,class F,class S,class T> void operator()(E const&,F&,S&,T&){ ac("aA"); } };
 struct ActB { template<class E,class F,class S,class T> void operator()(E const&,F&,S&,T&){ ac("aB"); } };
 struct ActI { template<class E,class F,class S,class T> void operator()(E const&,F&,S&,T&){ ac("aI"); } };
+struct ActJ { template<class E,class F,class S,class T> void operator()(E const&,F&,S&,T&){ ac("aJ"); } };
+struct GuK { template<class E,class F,class S,class T> bool operator()(E const&,F&,S&,T&){ return gd(GI, "gK"); } };
 struct ActF { template<class E,class F,class S,class T> void operator()(E const&,F&,S&,T&){ ac("aF"); } };
 struct GuA { template<class E,class F,class S,class T> bool operator()(E const&,F&,S&,T&){ return gd(GA, "gA"); } };
 struct GuC { template<class E,class F,class S,class T> bool operator()(E const&,F&,S&,T&){ return gd(GC, "gC"); } };
 struct GuI { template<class E,class F,class S,class T> bool operator()(E const&,F&,S&,T&){ return gd(GI, "gI"); } };
 struct GuF { template<class E,class F,class S,class T> bool operator()(E const&,F&,S&,T&){ return gd(GF, "gF"); } };
 struct F_ : state_machine_def<F_> {
-  struct S0 : state<> {}; struct S1 : state<> {}; struct S2 : state<> {};
+  struct S0 : LS<0> {}; struct S1 : LS<1> {}; struct S2 : LS<2> {};
   typedef S0 initial_state;
   struct transition_table : mpl::vector<
-    Row<S0, ea, S1, ActA, GuA>, Row<S1, eb, S2, ActB, none>, Row<S2, ec, S0, none, GuC>, Row<S0, ed, S2, none, none>, Row<S1, ei, none, ActI, GuI> > {};
+    Row<S0, ea, S1, ActA, GuA>, Row<S1, eb, S2, ActB, none>, Row<S2, ec, S0, none, GuC>, Row<S0, ed, S2, none, none>, Row<S1, ei, none, ActI, GuI>,
+    Row<S1, ej, none, ActJ, none>, Row<S1, ek, none, none, GuK> > {};
 #if HAS_SM_INTERNAL
   struct internal_transition_table : mpl::vector< Internal<ef, ActF, GuF> > {};
 #endif
@@ -38,13 +43,14 @@ struct F_ : state_machine_def<F_> {
 };
 // ---- variant B: basic member-function rows of state_machine_def
 struct B_ : state_machine_def<B_> {
-  struct S0 : state<> {}; struct S1 : state<> {}; struct S2 : state<> {};
+  struct S0 : LS<0> {}; struct S1 : LS<1> {}; struct S2 : LS<2> {};
   typedef S0 initial_state;
-  void actA(ea const&){ ac("aA"); } void actB(eb const&){ ac("aB"); } void actI(ei const&){ ac("aI"); } void actF(ef const&){ ac("aF"); }
+  void actA(ea const&){ ac("aA"); } void actB(eb const&){ ac("aB"); } void actI(ei const&){ ac("aI"); } void actF(ef const&){ ac("aF"); } void actJ(ej const&){ ac("aJ"); } bool guK(ek const&){ return gd(GI, "gK"); }
   bool guA(ea const&){ return gd(GA, "gA"); } bool guC(ec const&){ return gd(GC, "gC"); } bool guI(ei const&){ return gd(GI, "gI"); } bool guF(ef const&){ return gd(GF, "gF"); }
   typedef B_ p;
   struct transition_table : mpl::vector<
-    row<S0, ea, S1, &p::actA, &p::guA>, a_row<S1, eb, S2, &p::actB>, g_row<S2, ec, S0, &p::guC>, _row<S0, ed, S2>, irow<S1, ei, &p::actI, &p::guI> > {};
+    row<S0, ea, S1, &p::actA, &p::guA>, a_row<S1, eb, S2, &p::actB>, g_row<S2, ec, S0, &p::guC>, _row<S0, ed, S2>, irow<S1, ei, &p::actI, &p::guI>,
+    a_irow<S1, ej, &p::actJ>, g_irow<S1, ek, &p::guK> > {};
 #if HAS_SM_INTERNAL
   struct internal_transition_table : mpl::vector< boost::msm::front::internal<ef, p, &p::actF, p, &p::guF> > {};
 #endif
@@ -54,15 +60,15 @@ struct B_ : state_machine_def<B_> {
 // (not under backmp11: row2_helper reaches the state through fusion::at_key on the state set, which is a std::tuple there - does not compile)
 #if !IS_MP11
 struct R_ : state_machine_def<R_> {
-  struct S0 : state<> { void actA(ea const&){ ac("aA"); } bool guA(ea const&){ return gd(GA, "gA"); } };
-  struct S1 : state<> { void actB(eb const&){ ac("aB"); } void actI(ei const&){ ac("aI"); } bool guI(ei const&){ return gd(GI, "gI"); } };
-  struct S2 : state<> {};
+  struct S0 : LS<0> { void actA(ea const&){ ac("aA"); } bool guA(ea const&){ return gd(GA, "gA"); } };
+  struct S1 : LS<1> { void actB(eb const&){ ac("aB"); } void actI(ei const&){ ac("aI"); } bool guI(ei const&){ return gd(GI, "gI"); } void actJ(ej const&){ ac("aJ"); } bool guK(ek const&){ return gd(GI, "gK"); } };
+  struct S2 : LS<2> {};
   typedef S0 initial_state;
   bool guC(ec const&){ return gd(GC, "gC"); } void actF(ef const&){ ac("aF"); } bool guF(ef const&){ return gd(GF, "gF"); }
   typedef R_ p;
   struct transition_table : mpl::vector<
     row2<S0, ea, S1, S0, &S0::actA, S0, &S0::guA>, a_row2<S1, eb, S2, S1, &S1::actB>, g_row2<S2, ec, S0, p, &p::guC>, _row2<S0, ed, S2>,
-    irow2<S1, ei, S1, &S1::actI, S1, &S1::guI> > {};
+    irow2<S1, ei, S1, &S1::actI, S1, &S1::guI>, a_irow2<S1, ej, S1, &S1::actJ>, g_irow2<S1, ek, S1, &S1::guK> > {};
 #if HAS_SM_INTERNAL
   struct internal_transition_table : mpl::vector< boost::msm::front::internal<ef, p, &p::actF, p, &p::guF> > {};
 #endif
@@ -71,8 +77,8 @@ struct R_ : state_machine_def<R_> {
 #endif
 // ---- variant L: the internal row of S1 written as a state-LOCAL internal_transition_table
 struct L_ : state_machine_def<L_> {
-  struct S0 : state<> {}; struct S2 : state<> {};
-  struct S1 : state<> { struct internal_transition_table : mpl::vector< Internal<ei, ActI, GuI> > {}; };
+  struct S0 : LS<0> {}; struct S2 : LS<2> {};
+  struct S1 : LS<1> { struct internal_transition_table : mpl::vector< Internal<ei, ActI, GuI>, Internal<ej, ActJ, none>, Internal<ek, none, GuK> > {}; };
   typedef S0 initial_state;
   struct transition_table : mpl::vector<
     Row<S0, ea, S1, ActA, GuA>, Row<S1, eb, S2, ActB, none>, Row<S2, ec, S0, none, GuC>, Row<S0, ed, S2, none, none> > {};
@@ -85,25 +91,27 @@ struct L_ : state_machine_def<L_> {
 static std::string step(int& s, int ev) {
   auto b = [](int k){ return (g_bits >> k) & 1; };
   switch (ev) {
-    case 0: if (s == 0) { if (b(GA)) { s = 1; return "gA aA "; } return "gA "; } break;
-    case 1: if (s == 1) { s = 2; return "aB "; } break;
-    case 2: if (s == 2) { if (b(GC)) { s = 0; return "gC "; } return "gC "; } break;
-    case 3: if (s == 0) { s = 2; return ""; } break;
+    case 0: if (s == 0) { if (b(GA)) { s = 1; return "gA -0 aA +1 "; } return "gA "; } break;
+    case 1: if (s == 1) { s = 2; return "-1 aB +2 "; } break;
+    case 2: if (s == 2) { if (b(GC)) { s = 0; return "gC -2 +0 "; } return "gC "; } break;
+    case 3: if (s == 0) { s = 2; return "-0 +2 "; } break;
     case 4: if (s == 1) { return b(GI) ? "gI aI " : "gI "; } break;
     case 5: if (HAS_SM_INTERNAL) return b(GF) ? "gF aF " : "gF "; break;
+    case 6: if (s == 1) return "aJ "; break;                       // action-only internal row: no exit, no entry
+    case 7: if (s == 1) return "gK "; break;                       // guard-only internal row
   }
   return "NT ";
 }
 template<class M> static void fire(M& m, int ev) {
   switch (ev) { case 0: m.process_event(ea()); break; case 1: m.process_event(eb()); break; case 2: m.process_event(ec()); break;
-                case 3: m.process_event(ed()); break; case 4: m.process_event(ei()); break; default: m.process_event(ef()); } }
+                case 3: m.process_event(ed()); break; case 4: m.process_event(ei()); break; case 5: m.process_event(ef()); break; case 6: m.process_event(ej()); break; default: m.process_event(ek()); } }
 template<class Front> static void variant(const char* name) {
   typedef BE<Front> M;
-  const int NEV = 6, LEN = 4; int bad = 0, runs = 0; std::string first;
+  const int NEV = 8, LEN = 4; int bad = 0, runs = 0; std::string first;
   for (unsigned v = 0; v < 16; ++v) {
     int idx[LEN] = {0, 0, 0, 0};
     for (;;) {
-      g_bits = v; M m; m.start(); g_log.clear(); std::string exp; int s = 0;
+      g_bits = v; M m; m.start(); g_log.clear(); std::string exp; int s = 0;     // (the initial entry +0 is cleared)
       for (int k = 0; k < LEN; ++k) { fire(m, idx[k]); exp += step(s, idx[k]); exp += "| "; g_log += "| "; }
       ++runs;
       if (g_log != exp) { if (!bad++) first = "guards=" + std::to_string(v) + " events=" + std::to_string(idx[0]) + std::to_string(idx[1]) + std::to_string(idx[2]) + std::to_string(idx[3]) + " log=[" + g_log + "] expected=[" + exp + "]"; }
